@@ -103,7 +103,7 @@ def explore_configs(tier):
             for pre in ([], ['I']):
                 for a in kinds:
                     cfgs.append((term0, pre + [a, 'B:%d' % polls]))
-                if term0 == 2 and pre:
+                if pre and (term0 == 2 or polls == 2):
                     continue
                 for i, a in enumerate(kinds):
                     for b in kinds[i:]:
@@ -367,7 +367,7 @@ def run(chk):
     chk.sub('exhaustive', exhaustive=(ex_stats['truncated'] == 0), **ex_stats)
     # random part
     r = chk.rng
-    nrand = 4000 if quick else 80000
+    nrand = 4000 if quick else 60000
     done = 0
     while done < nrand:
         nb = min(40000, nrand - done)
